@@ -7,7 +7,7 @@ out=/verif/seeded/RESULTS.tsv
 tmp=$(mktemp -d)
 one() {
   d=$1; id=$(basename $d); p=${id%%-*}
-  r=$(GOVC_ROUNDS=1 /verif/tools/eval_seed.sh $d/patch.diff $id $p | tail -1)
+  r=$(GOVC_ROUNDS=1 GOVC_NOREPLAY=1 /verif/tools/eval_seed.sh $d/patch.diff $id $p | tail -1)
   if echo "$r" | grep -q "DOES NOT APPLY"; then printf "%s\t%s\t%s\t%s\t%s\n" "$id" "$p" "-" "-" "patch no longer applies (the function was repaired by a fix commit)"; return; fi
   rc=$(echo "$r" | sed 's/.*exit=\([0-9]*\).*/\1/'); nv=$(echo "$r" | sed 's/.*viol=\([0-9]*\).*/\1/'); ob=$(echo "$r" | sed 's/.*:: //')
   printf "%s\t%s\t%s\t%s\t%s\n" "$id" "$p" "$rc" "$nv" "$ob"
